@@ -140,6 +140,10 @@ def replay(p):
             n1, g1, h1 = fcn.nll_grad_hessian(list(x0))
             err = max(abs(float(n0) - f(x0)), abs(float(n1) - f(x0)), np.max(np.abs(np.array([float(v) for v in g0]) - gnum)),
                       np.max(np.abs(np.array([float(v) for v in g1]) - gnum)), np.max(np.abs(np.asarray(h1, dtype=float) - Hnum)) / 10)
+            if p.get("hessp"):
+                pv = np.array([float(m.get("p_%d" % i, 1.0)) for i in range(len(x0))])
+                g2, hp = fcn.grad_hessp(list(x0), pv, batch=p.get("batch", 3))
+                err = max(np.max(np.abs(np.array([float(v) for v in g2]) - gnum)), np.max(np.abs(np.asarray(hp, dtype=float).reshape(-1) - Hnum @ pv)) / 10)
             scale = 1 + abs(f(x0)) + np.max(np.abs(Hnum))
         elif kind == "bound":
             import re
